@@ -49,16 +49,16 @@ G_GROUPS = {
     "g2m": ("G_undo_g2m.cfg", "m", {"thorough": 10000}),
     # XML scope (root fragment x): from the empty fragment (c*, f*, g*), with content of another origin prepared before the
     # manager starts (p*: trimmed edit menu), deep histories of ONE attribute of one element (xk*)
-    "c3x": ("G_undo_c3x.cfg", "x", {"quick": 400, "thorough": None}),
-    "p2x": ("G_undo_p2x.cfg", "xp", {"quick": 250, "thorough": None}),
-    "f2x": ("G_undo_f2x.cfg", "x", {"quick": 400, "thorough": 15000}),
-    "xk4": ("G_undo_xk4.cfg", "x", {"quick": 200, "thorough": None}),
-    "pf2x": ("G_undo_pf2x.cfg", "xp", {"thorough": 15000}),
-    "p3x": ("G_undo_p3x.cfg", "xp", {"thorough": 20000}),
-    "c4x": ("G_undo_c4x.cfg", "x", {"thorough": 20000}),
-    "f3x": ("G_undo_f3x.cfg", "x", {"thorough": 12000}),
-    "g2x": ("G_undo_g2x.cfg", "x", {"thorough": 10000}),
-    "xk5": ("G_undo_xk5.cfg", "x", {"thorough": 15000}),
+    "c3x": ("G_undo_c3x.cfg", "x", {"quick": 400, "thorough": 6000}),
+    "p2x": ("G_undo_p2x.cfg", "xp", {"quick": 250, "thorough": 4000}),
+    "f2x": ("G_undo_f2x.cfg", "x", {"quick": 400, "thorough": 4000}),
+    "xk4": ("G_undo_xk4.cfg", "x", {"quick": 200, "thorough": 3000}),
+    "pf2x": ("G_undo_pf2x.cfg", "xp", {"thorough": 3000}),
+    "p3x": ("G_undo_p3x.cfg", "xp", {"thorough": 4000}),
+    "c4x": ("G_undo_c4x.cfg", "x", {"thorough": 4000}),
+    "f3x": ("G_undo_f3x.cfg", "x", {"thorough": 3000}),
+    "g2x": ("G_undo_g2x.cfg", "x", {"thorough": 3000}),
+    "xk5": ("G_undo_xk5.cfg", "x", {"thorough": 3000}),
     # "wiggle" shapes (MC_Undo constant Shape): prepared content, every edit its own capture step, then U^p (R U)^j U U R R:
     # an outer step is undone / redone / undone ... before older steps are undone (content re-created several times)
     "w2t": ("G_undo_w2t.cfg", "wt", {"quick": None, "thorough": None}),
@@ -69,25 +69,25 @@ G_GROUPS = {
     "wz3t": ("G_undo_wz3t.cfg", "t", {"quick": None, "thorough": None}),
     "wz3a": ("G_undo_wz3a.cfg", "a", {"quick": None, "thorough": None}),
     "wz3m": ("G_undo_wz3m.cfg", "m", {"thorough": None}),
-    "wf1x": ("G_undo_wf1x.cfg", "wx", {"quick": 100, "thorough": 4000}),
-    "wf2x": ("G_undo_wf2x.cfg", "wx", {"thorough": 6000}),
-    "wf2t": ("G_undo_wf2t.cfg", "wt", {"thorough": 4000}),
-    "wf2a": ("G_undo_wf2a.cfg", "wa", {"thorough": 4000}),
-    "wf2m": ("G_undo_wf2m.cfg", "wm", {"thorough": 4000}),
-    "w3t": ("G_undo_w3t.cfg", "wt", {"thorough": 6000}),
-    "w3a": ("G_undo_w3a.cfg", "wa", {"thorough": 6000}),
-    "w3m": ("G_undo_w3m.cfg", "wm", {"thorough": 6000}),
-    "w3x": ("G_undo_w3x.cfg", "wx", {"thorough": 8000}),
+    "wf1x": ("G_undo_wf1x.cfg", "wx", {"quick": 100, "thorough": 1500}),
+    "wf2x": ("G_undo_wf2x.cfg", "wx", {"thorough": 2000}),
+    "wf2t": ("G_undo_wf2t.cfg", "wt", {"thorough": 1000}),
+    "wf2a": ("G_undo_wf2a.cfg", "wa", {"thorough": 1000}),
+    "wf2m": ("G_undo_wf2m.cfg", "wm", {"thorough": 1000}),
+    "w3t": ("G_undo_w3t.cfg", "wt", {"thorough": 1500}),
+    "w3a": ("G_undo_w3a.cfg", "wa", {"thorough": 1500}),
+    "w3m": ("G_undo_w3m.cfg", "wm", {"thorough": 1500}),
+    "w3x": ("G_undo_w3x.cfg", "wx", {"thorough": 2500}),
 }
 XML_GROUPS = [g for g in G_GROUPS if G_GROUPS[g][1] in ("x", "xp", "wx")]
 # multi-operation transactions: programs of the base group in which every run of >= 2 consecutive tracked edits (no tick
 # between them: one capture step anyway) is ONE transaction (step `umulti`); in every second variant the transaction also edits
 # a root outside the scope.  name -> (base group, {tier: sample size})
 MULTI_GROUPS = {
-    "mt": ("c3t", {"quick": 60, "thorough": 3000}),
-    "ma": ("c3a", {"quick": 60, "thorough": 3000}),
-    "mm": ("c3m", {"quick": 60, "thorough": 3000}),
-    "mx": ("c3x", {"quick": 60, "thorough": 3000}),
+    "mt": ("c3t", {"quick": 60, "thorough": 1000}),
+    "ma": ("c3a", {"quick": 60, "thorough": 1000}),
+    "mm": ("c3m", {"quick": 60, "thorough": 1000}),
+    "mx": ("c3x", {"quick": 60, "thorough": 1000}),
 }
 TIERS = {
     # "combined": several small groups share ONE X + V run (the fixed cost of a TLC start is paid once)
@@ -98,7 +98,7 @@ TIERS = {
               "deep": 2, "deep_n": 400, "deepx": 0, "deepx_n": 100},
     "thorough": {"gen": [g for g in G_GROUPS if g[0] != "w"], "combined": {"wiggle": [g for g in G_GROUPS if g[0] == "w"],
                                                                               "multi": list(MULTI_GROUPS)},
-                 "deep": 12, "deep_n": 1500, "deepx": 6, "deepx_n": 1500},
+                 "deep": 12, "deep_n": 1500, "deepx": 4, "deepx_n": 1000},
 }
 
 OTHER = {"t": "m", "a": "t", "m": "a", "x": "m"}
